@@ -1,6 +1,10 @@
 package props
 
-import "verif/internal/vc"
+import (
+	"strings"
+
+	"verif/internal/vc"
+)
 
 var ircHelpers = []string{
 	"ircserver.IRCServer.send", "ircserver.IRCServer.sendUser", "ircserver.IRCServer.sendChannel",
@@ -39,6 +43,20 @@ func init() {
 			UnitPlan{"ircserver.IRCServer.resolveSessionToRemoteAddrLocked", opts}, UnitPlan{"ircserver.NickToLower", opts}, UnitPlan{"ircserver.ChanToLower", opts})
 		for _, h := range ircHelpers {
 			p.Units = append(p.Units, UnitPlan{h, vc.UnitOpts{NoPanic: true, Post: true, Frame: true}})
+		}
+		// every function with a contract of its own that the units above can reach is verified
+		// modularly at its call sites, so its body has to be swept as a unit as well
+		have := map[string]bool{}
+		var roots []string
+		for _, up := range p.Units {
+			have[up.Func] = true
+			roots = append(roots, up.Func)
+		}
+		for _, n := range contractClosure(e, roots) {
+			if !have[n] && (strings.HasPrefix(n, "ircserver.") || strings.HasPrefix(n, "main.")) {
+				p.Units = append(p.Units, UnitPlan{n, opts})
+				have[n] = true
+			}
 		}
 		return nil
 	}
